@@ -375,7 +375,7 @@ func (db *hostKeyDB) checkAddr(a addr, remoteKey ssh.PublicKey) error {
 	keyErr := &KeyError{}
 
 	for _, l := range db.lines {
-		if !l.match(a) {
+		if l.cert || !l.match(a) {
 			continue
 		}
 
